@@ -13,3 +13,6 @@ Definition c26_ok (ops : list op) (r : option (list out)) : bool :=
   | None => false
   | Some outs => list_eqb out_eqb outs (spec_outputs ops)
   end.
+
+(* the file persister enforces the documented maximum record length: a longer put is a refused put *)
+Definition c26_ok_file (ops : list op) (r : option (list out)) : bool := c26_ok (clip ops) r.
